@@ -236,6 +236,29 @@ Theorem hh_shared_inode_written :
   option_map v_efi (hybrid_view s) = Some [104; 4] /\ option_map v_rba (hybrid_view s) = Some 104.
 Proof. vm_compute. repeat split. Qed.
 
+(* ed6ec41: an EFI image with two names (EA.;1, EB.;1: two encs of ONE entry) and a Mac image, then
+   add_isohybrid(efi=True, mac=True): the EFI slot describes the EFI image (load_rba 27, 8
+   sectors) and the Mac slot the Mac image (load_rba 29, 12 sectors), in the MBR and in both GPT
+   arrays.  Reproduction: /var/tmp/hh_two_names.py prints [108, 8] [116, 12] ... *)
+Definition n_ea : ident := [69; 65; 46; 59; 49].        (* EA.;1 *)
+Definition n_eb : ident := [69; 66; 46; 59; 49].        (* EB.;1 *)
+Definition n_mac : ident := [77; 65; 67; 46; 59; 49].   (* MAC.;1 *)
+Definition w_two_names :=
+  h_boot ++ [HBase (BAddFile [] n_ea 4096); HBase (BAddLink [n_ea] [] n_eb);
+             HBase (BAddEltorito [n_ea] [] n_cat None 0 false true 0 true 0);
+             HBase (BAddFile [] n_mac 6144);
+             HBase (BAddEltorito [n_mac] [] n_cat None 0 false true 0 true 0);
+             HAddHybrid 1 7 0 32 64 None true (Some true) hh_noguid; HWrite].
+Theorem hh_two_names_mac :
+  all_acc w_two_names = true /\
+  let s := hrun hinit w_two_names in
+  entry_rbas (hb s) = [26; 27; 29] /\
+  option_map v_efi (hybrid_view s) = Some [108; 8] /\
+  option_map v_mac (hybrid_view s) = Some [116; 12] /\
+  option_map (fun v => skipn 2 (v_pri_parts v)) (hybrid_view s) = Some [108; 115; 116; 127] /\
+  option_map (fun v => skipn 2 (v_sec_parts v)) (hybrid_view s) = Some [108; 115; 116; 127].
+Proof. vm_compute. repeat split. Qed.
+
 (* what still makes write_fp raise after accepted calls (current tree): struct.error -- the
    partition offset lies beyond the (clamped) cylinders, psize < 0 *)
 Definition w_struct_error := h_boot ++ [HAddHybrid 1 7 100000 32 64 None false None hh_noguid; HWrite].
@@ -268,3 +291,4 @@ Print Assumptions hh_shared_inode_written.
 Print Assumptions hh_write_succeeds_fixed_witnesses.
 Print Assumptions hh_rm_eltorito_removes_hybrid.
 Print Assumptions hh_efi_follows_moved_file.
+Print Assumptions hh_two_names_mac.
